@@ -12,8 +12,9 @@ package actionlint
 //@   anchor
 //@   at_call (*globValidator).unexpected: what == "special character ? (zero or one)" ==> char == '?' && !v.prec
 //@   at_call (*globValidator).unexpected: what == "special character + (one or more)" ==> char == '+' && !v.prec
-//@   at_call (*globValidator).unexpected: what == "character range in []" && why != "end of range is missing" ==> s > c && char == c
-//@   at_call (*globValidator).unexpected: what == "character match []" ==> chars == 1
+//@   at_call (*globValidator).unexpected: what == "character range in []" && why != "end of range is missing" && why != "newline cannot be contained" ==> s > c && char == c
+//@   at_call (*globValidator).unexpected: what == "character match []" && why != "newline cannot be contained" ==> chars == 1
+//@   at_call (*globValidator).unexpected: why == "newline cannot be contained" ==> char == 10 || char == 13
 //@   at_call (*globValidator).unexpected: what == "end of character match []" ==> char == 0 - 1
 //@   at_call (*globValidator).unexpected: what == "" ==> char == 10 || char == 13
 //@   at_call (*globValidator).unexpected: what == "special character ? (zero or one)" || what == "special character + (one or more)" || what == "character range in []" || what == "character match []" || what == "end of character match []" || what == "" || what == "content of character match []"
